@@ -29,7 +29,8 @@ RULE = (
     "with PYTHONHASHSEED 1 and 2 (transitions = those API calls + builder ops + one captured solve).  Oracle: the "
     "syntactic variable set of the recipe (computed by the reference interpreter, not by optyx), unique by name, "
     "in natural-sort order; get_bounds()[i] and the domain are those declared for variables[i] (each element is "
-    "given its own bounds).  Non-trivial = problem with >=2 variables; distinct by recipe."
+    "given its own bounds); problems with <=1 constraint are also reached as a NON-INITIAL object: built with another "
+    "objective of the menu (two fixed rotations), read and solved once, then the objective replaced.  Non-trivial = problem with >=2 variables; distinct by recipe."
 )
 ASSUMPTIONS = ["natural order = split on digit runs, numeric comparison of the digit runs (as documented by optyx)"]
 
@@ -235,6 +236,49 @@ def check_problem(pr, rep=None, want=None, solve=True):
     return fails
 
 
+def check_replacement(pr, prev, rep=None, want=None):
+    """Non-initial problem object: P is built with the objective `prev` and the constraints of pr, its variable list,
+    count and bounds are read and one (environment-answered) solve is made; the objective is then REPLACED by pr's
+    through minimize / maximize and the same observations must equal those of pr built fresh."""
+    import warnings
+
+    fails = Fails(want)
+    pr0 = ("prob", pr[1], prev) + tuple(pr[3:])
+    try:
+        P, b, built = PR.build_problem(pr0)
+        names0 = expected_names(pr0)
+        declare(b, names0)
+        P.variables, P.n_variables, P.get_bounds()
+        with warnings.catch_warnings():
+            warnings.simplefilter("ignore")
+            with Seam(script=[lambda call: result(np.zeros(len(names0)), fun=0.0)] * 3, passthrough=False):
+                try:
+                    P.solve()
+                except Exception:
+                    pass
+        o = b.build(pr[2])
+        (P.minimize if pr[1] == "min" else P.maximize)(o)
+        names = expected_names(pr)
+        declare(b, names)
+        got = [v.name for v in P.variables]
+        n = P.n_variables
+        bounds = [tuple(x) for x in P.get_bounds()]
+    except Exception as ex:
+        fails.add("exception:after-objective-replacement:" + type(ex).__name__, msg=str(ex)[:200], previous=prev)
+        return fails
+    if rep:
+        rep.transitions += 6
+        rep.evaluations += 3
+    if got != names:
+        fails.add("variable-set:after-objective-replacement", got=got, expected=names, previous_objective=prev,
+                  extra=sorted(set(got) - set(names)), missing=sorted(set(names) - set(got)))
+    elif n != len(names):
+        fails.add("n_variables:after-objective-replacement", got=n, expected=len(names))
+    elif bounds != [elem_bounds(nm)[:2] for nm in names]:
+        fails.add("get_bounds:after-objective-replacement", got=bounds)
+    return fails
+
+
 NSH = 32
 
 
@@ -269,6 +313,15 @@ def explore(item, tier, seed):
                 if k not in seen:
                     seen.add(k)
                     rep.violation(k, {"label": lab, "problem": pr}, **d)
+            if not fs and len(lab) <= 2:
+                objs = objectives()
+                j = next(t for t, (ol, _) in enumerate(objs) if ol == lab[0])
+                for rot in (7, 19):
+                    prev = objs[(j + rot) % len(objs)][1]
+                    for k, d in check_replacement(pr, prev, rep):
+                        if k not in seen:
+                            seen.add(k)
+                            rep.violation(k, {"label": lab, "problem": pr, "previous": prev}, **d)
             if rep.states % 301 == 1:
                 rep.sample({"label": lab, "problem": pr})
         return rep
@@ -297,5 +350,8 @@ def culprit(v):
 
 def replay(art):
     pr = detuple(art["violation"]["case"]["problem"])
+    if art["violation"]["case"].get("previous") is not None:
+        fs = check_replacement(pr, detuple(art["violation"]["case"]["previous"]), None, want=art["culprit"]["kind"])
+        return [{"kind": k, "detail": d} for k, d in fs]
     fs = check_problem(pr, None, want=art["culprit"]["kind"] if art["culprit"]["kind"] != "variables-under-hash-seed" else None)
     return [{"kind": k, "detail": d} for k, d in fs]
